@@ -214,6 +214,8 @@ class InlineTranslator:
 
         if agg.function not in (AggregateFunction.Count, AggregateFunction.Sum, AggregateFunction.SumPlus):
             return [stm]
+        if agg.function != AggregateFunction.Count and not all(elem.terms for elem in agg.elements):
+            return [stm]  # an element with an empty tuple has no weight
         agga = AggAnalytics(agg)
         # only one equality
         if len(agga.equal_variable_bound) != 1 or agga.bounds:
